@@ -96,10 +96,21 @@ func checkC14(c *Check) {
 	// finding schemas: one corpus each
 	var findingSpecs []CorpusSpec
 	fs, _ := filepath.Glob(filepath.Join(verifDir, "schemas", "c14_findings", "*.tl*"))
+	// schemas of repaired defects: each must now be refused cleanly or compile (no entry in known_findings.txt)
+	rs, _ := filepath.Glob(filepath.Join(verifDir, "schemas", "c14_regressions", "*.tl*"))
+	fs = append(fs, rs...)
 	sort.Strings(fs)
 	for _, f := range fs {
 		base := strings.NewReplacer(".", "_").Replace(filepath.Base(f))
-		findingSpecs = append(findingSpecs, CorpusSpec{Name: "f_" + base, Schemas: []string{f}, Flags: []string{"--tl2WhiteList=*", "--generateRandomCode"}})
+		flags := []string{"--tl2WhiteList=*", "--generateRandomCode"}
+		// a schema may name the generator options it needs in its first line: `// tlverif-flags: …`
+		if src, err := os.ReadFile(f); err == nil {
+			first, _, _ := strings.Cut(string(src), "\n")
+			if rest, ok := strings.CutPrefix(first, "// tlverif-flags:"); ok {
+				flags = strings.Fields(rest)
+			}
+		}
+		findingSpecs = append(findingSpecs, CorpusSpec{Name: "f_" + base, Schemas: []string{f}, Flags: flags})
 	}
 	all := append(append([]CorpusSpec{}, specs...), findingSpecs...)
 	type res struct {
@@ -138,7 +149,7 @@ func checkC14(c *Check) {
 		isFinding := i >= len(specs)
 		construct := sp.Name + " [" + strings.Join(sp.Flags, " ") + "]"
 		if isFinding {
-			construct = "schemas/c14_findings/" + filepath.Base(sp.Schemas[0])
+			construct = "schemas/" + filepath.Base(filepath.Dir(sp.Schemas[0])) + "/" + filepath.Base(sp.Schemas[0])
 		}
 		dir := filepath.Join(ws.GenRoot, sp.Name)
 		if results[i].err != nil {
